@@ -13,6 +13,9 @@ pub mod c09;
 pub mod c10;
 pub mod c11;
 pub mod c12;
+pub mod c13;
+pub mod c14;
+pub mod c15;
 
 pub fn run(prop: &str, opts: &Opts) -> bool {
     match prop {
@@ -29,6 +32,9 @@ pub fn run(prop: &str, opts: &Opts) -> bool {
         "c10" => c10::run(opts),
         "c11" => c11::run(opts),
         "c12" => c12::run(opts),
+        "c13" => c13::run(opts),
+        "c14" => c14::run(opts),
+        "c15" => c15::run(opts),
         _ => return false,
     }
     true
